@@ -170,6 +170,18 @@ def rule_y3(chk: Check, ix: Index):
                             "empty for the NEWLINE fabricated at the end of input (`if x` without a final newline reports text '')")
 
 
+def _whole_text(e: ast.expr) -> str:
+    """`text`, `text[0:]` / `text[:]` (a string's full slice is the string) and a conditional between such forms are one value."""
+    if isinstance(e, ast.Subscript) and isinstance(e.slice, ast.Slice) and e.slice.upper is None and e.slice.step is None and \
+            (e.slice.lower is None or (isinstance(e.slice.lower, ast.Constant) and e.slice.lower.value == 0)):
+        return _whole_text(e.value)
+    if isinstance(e, ast.IfExp):
+        a, b = _whole_text(e.body), _whole_text(e.orelse)
+        if a == b:
+            return a
+    return norm_stmt(e)
+
+
 def rule_y3b(chk: Check, ix: Index):
     """The line cache maps a line number to the text of that very line: the only writes are
     `self._lines[tok.start[0]] = tok.line`, first writer wins."""
@@ -179,7 +191,7 @@ def rule_y3b(chk: Check, ix: Index):
             continue
         for n in own_nodes(f.node):
             if isinstance(n, ast.Assign) and any(isinstance(t, ast.Subscript) and norm_stmt(t.value) == "self._lines" for t in n.targets):
-                writes.append((f, n, norm_stmt(n.targets[0].slice), norm_stmt(n.value)))
+                writes.append((f, n, norm_stmt(n.targets[0].slice), _whole_text(n.value)))
             if isinstance(n, ast.Call) and isinstance(n.func, ast.Attribute) and norm_stmt(n.func.value) == "self._lines" \
                     and n.func.attr in ("setdefault", "update", "__setitem__"):
                 writes.append((f, n, norm_stmt(n.args[0]) if n.args else "?", norm_stmt(n.args[1]) if len(n.args) > 1 else "?"))
